@@ -229,15 +229,25 @@ KEEPALIVE = []      # entities deliberately kept alive across scenarios (a user 
 def keep_alive(scn):
     """build the entities of a scenario, type them, and keep them referenced for the rest of the unit"""
     vec, mods = plasmids(scn)
-    v, ms = entities(scn, vec, mods)
-    for e in [v] + ms:
-        e.is_valid()
+    try:
+        v, ms = entities(scn, vec, mods)
+        for e in [v] + ms:
+            e.is_valid()
+    except Exception:
+        return          # (the scenario itself reports what the library answers; nothing to keep alive)
     KEEPALIVE.append((v, ms))
 
 
 def assemble_scenario(scn):
     vec, mods = plasmids(scn)
-    v, ms = entities(scn, vec, mods)
+    try:
+        v, ms = entities(scn, vec, mods)
+    except Exception as e:
+        # (the library refuses to wrap a plasmid in a class it defines: an answer, not a fault of the harness)
+        o = Outcome()
+        o.kind, o.exc, o.exc_name = "internal-error", e, type(e).__name__
+        o.attrs["message"] = "while wrapping the records: " + str(e)[:160]
+        return o
     perm = scn.get("perm") or list(range(len(ms)))
     return run_assemble(v, [ms[i] for i in perm])
 
